@@ -24,6 +24,7 @@ mod pathfs;
 mod inject;
 mod tenantstore;
 mod tenantapi;
+mod rbac;
 
 fn main() {
     let args: Vec<String> = std::env::args().collect();
@@ -65,6 +66,7 @@ fn main() {
         "inject-replay" => inject::replay(rest),
         "tenantstore-replay" => tenantstore::replay(rest),
         "tenantapi-replay" => tenantapi::replay(rest),
+        "rbac-replay" => rbac::replay(rest),
         "for-expand" => misc::for_expand(rest),
         "event-file" => misc::event_file(rest),
         other => {
